@@ -124,13 +124,17 @@ class NumArr:
             return NumArr([[f[i + j * r] for j in range(c)] for i in range(r)])
         return NumArr([[f[i * c + j] for j in range(c)] for i in range(r)])
 
-    def ravel(self):
+    def ravel(self, order="C"):
+        if order not in ("C", "F", "A", "K"):
+            raise ValueError("order not understood")
         if self.ndim == 2:
+            if order == "F":
+                return NumArr([r.data[j] for j in range(len(self.data[0])) for r in self.data] if self.data else [])
             return NumArr([y for x in self.data for y in x.data])
         return self
 
-    def flatten(self):
-        return NumArr(self.ravel().data)
+    def flatten(self, order="C"):
+        return NumArr(list(self.ravel(order).data))
 
     def dot(self, o):
         return dot(self, o)
@@ -309,6 +313,10 @@ class NumArr:
             return bool(self.ravel().data[0])
         raise ValueError("The truth value of an array with more than one element is ambiguous")
     def sum(self, axis=None):
+        if axis is not None:
+            if isinstance(axis, bool) or not isinstance(axis, int) or not -self.ndim <= axis < self.ndim:
+                raise ValueError("axis %r is out of bounds for array of dimension %d" % (axis, self.ndim))
+            axis %= self.ndim
         if self.ndim == 2:
             if axis is None:
                 return sum(sum(r.data) for r in self.data)
@@ -319,11 +327,27 @@ class NumArr:
     def mean(self, axis=None, **k): return _mean(self, axis)
     def min(self): return min(self.ravel().data)
     def max(self): return max(self.ravel().data)
-    def argmin(self): return self.data.index(min(self.data))
-    def argmax(self): return self.data.index(max(self.data))
-    def cumsum(self):
+    def argmin(self, axis=None):
+        if axis is not None:
+            raise Undecided("argmin along an axis")
+        d = self.ravel().data
+        if not d:
+            raise ValueError("attempt to get argmin of an empty sequence")
+        return d.index(min(d))
+
+    def argmax(self, axis=None):
+        if axis is not None:
+            raise Undecided("argmax along an axis")
+        d = self.ravel().data
+        if not d:
+            raise ValueError("attempt to get argmax of an empty sequence")
+        return d.index(max(d))
+
+    def cumsum(self, axis=None):
+        if axis is not None:
+            raise Undecided("cumsum along an axis")
         out, t = [], 0
-        for x in self.data:
+        for x in self.ravel().data:
             t = t + x
             out.append(t)
         return NumArr(out)
@@ -444,9 +468,37 @@ def _mean(a, axis=None):
     if a.ndim == 1 or axis is None:
         flat = a.ravel().data
         return sum(flat) / len(flat)
+    if isinstance(axis, bool) or not isinstance(axis, int) or not -a.ndim <= axis < a.ndim:
+        raise ValueError("axis %r is out of bounds for array of dimension %d" % (axis, a.ndim))
+    axis %= a.ndim
     tot = a.sum(axis)
     n = a.shape[axis]
     return tot / n
+
+
+def _hstack(seq):
+    parts = [p if isinstance(p, NumArr) else NumArr(list(p) if _is_seq(p) else [p]) for p in seq]
+    if all(p.ndim == 1 for p in parts):
+        return NumArr([x for p in parts for x in p.data])
+    if all(p.ndim == 2 for p in parts):
+        if len({p.shape[0] for p in parts}) != 1:
+            raise ValueError("all the input array dimensions except for the concatenation axis must match exactly")
+        return NumArr([[x for p in parts for x in p.data[i].data] for i in range(parts[0].shape[0])])
+    raise ValueError("all the input arrays must have same number of dimensions")
+
+
+def _vstack(seq):
+    parts = [p if isinstance(p, NumArr) else NumArr(list(p) if _is_seq(p) else [p]) for p in seq]
+    rows = []
+    for p in parts:
+        rows += [list(p.data)] if p.ndim == 1 else [list(r.data) for r in p.data]
+    if len({len(r) for r in rows}) != 1:
+        raise ValueError("all the input array dimensions except for the concatenation axis must match exactly")
+    return NumArr(rows)
+
+
+def _arrify_(v):
+    return v if isinstance(v, NumArr) else NumArr(list(v) if _is_seq(v) else [v])
 
 
 def _raise_und(msg):
@@ -567,13 +619,28 @@ def _math_summaries():
         return 1.0 / v if v != 0 else inf
 
     def power(a, b):
-        return a ** b
+        try:
+            r = a ** b
+        except ZeroDivisionError:
+            return inf                      # numpy (floats): 0.0 ** negative is inf, with a warning
+        except OverflowError:
+            return inf
+        if isinstance(r, complex):
+            return nan                      # numpy (floats): negative base, fractional exponent
+        return r
+
+    def modulo(x, y):
+        if y == 0:
+            if isinstance(x, float) or isinstance(y, float):
+                return nan                  # numpy (floats): x % 0.0 is nan, with a warning
+            raise Undecided("integer remainder by zero")
+        return x % y
     un = lambda f: (lambda x, *a, **k: emap(f, x))
     out = {"np.log": un(log), "np.exp": un(exp), "np.sqrt": un(sqrt), "np.log1p": un(lambda v: log(1 + v)), "np.expm1": un(lambda v: exp(v) - 1),
            "np.reciprocal": un(recip), "np.square": un(lambda v: v * v), "np.negative": un(lambda v: -v), "np.float_power": lambda a, b: emap(lambda x, y: float(x) ** y, a, b),
            "np.power": lambda a, b: emap(power, a, b), "np.divide": lambda a, b: emap(lambda x, y: x / y, a, b), "np.true_divide": lambda a, b: emap(lambda x, y: x / y, a, b),
            "np.subtract": lambda a, b: emap(lambda x, y: x - y, a, b),
-           "np.mod": lambda a, b: emap(lambda x, y: x % y, a, b), "np.remainder": lambda a, b: emap(lambda x, y: x % y, a, b),
+           "np.mod": lambda a, b: emap(modulo, a, b), "np.remainder": lambda a, b: emap(modulo, a, b),
            "np.floor": un(lambda v: float(math.floor(v))), "np.ceil": un(lambda v: float(math.ceil(v))), "np.round": un(lambda v: float(round(v))),
            "np.rint": un(lambda v: float(round(v))), "np.isnan": un(lambda v: v != v), "np.sign": un(lambda v: (v > 0) - (v < 0)),
            "np.pi": math.pi, "np.e": math.e, "math.pi": math.pi, "math.log": log, "math.exp": exp, "math.sqrt": sqrt, "math.lgamma": lgamma}
@@ -692,12 +759,13 @@ def num_summaries():
         "np.asarray": lambda x, *a, **k: (x if (isinstance(x, NumArr) and _dtype_name(k.get("dtype", a[0] if a else None)) in (None, x.dtype)) else arr(x, *a, **k)),
         "np.asanyarray": lambda x, *a, **k: (x if isinstance(x, NumArr) else arr(x, *a, **k)), "np.copy": arr, "np.searchsorted": searchsorted, "np.where": where,
         "np.minimum": pair(min), "np.maximum": pair(max), "np.clip": clip,
-        "np.any": lambda a: any(bool(x) for x in a), "np.all": lambda a: all(bool(x) for x in a),
+        "np.any": lambda a, axis=None: (any(bool(x) for x in (_arrify(a).ravel() if isinstance(_arrify(a), NumArr) else [a])) if axis is None else _raise_und("np.any along an axis")),
+        "np.all": lambda a, axis=None: (all(bool(x) for x in (_arrify(a).ravel() if isinstance(_arrify(a), NumArr) else [a])) if axis is None else _raise_und("np.all along an axis")),
         "np.zeros": lambda shape=None, dtype=None, *a, **k: _alloc(shape, 0 if _dtype_name(dtype) == "int" else False if _dtype_name(dtype) == "bool" else 0.0, "int" if _dtype_name(dtype) == "int" else None),
         "np.histogram": histogram,
         "np.arange": lambda *a: NumArr(list(range(*a))), "np.isin": lambda a, b: emap(lambda x: x in list(_arrify(b).ravel() if isinstance(_arrify(b), NumArr) else [b]), _arrify(a)),
         "np.diff": only1d(lambda a: NumArr([y - x for x, y in zip(list(a)[:-1], list(a)[1:])]), "np.diff"),
-        "np.cumsum": only1d(lambda a: NumArr(a).cumsum(), "np.cumsum"), "np.argmin": only1d(lambda a: NumArr(a).argmin(), "np.argmin"), "np.argmax": only1d(lambda a: NumArr(a).argmax(), "np.argmax"),
+        "np.cumsum": lambda a, axis=None: _arrify_(a).cumsum(axis), "np.argmin": lambda a, axis=None: _arrify_(a).argmin(axis), "np.argmax": lambda a, axis=None: _arrify_(a).argmax(axis),
         "np.flatnonzero": lambda a: NumArr([i for i, b in enumerate(_arrify(a).ravel() if isinstance(_arrify(a), NumArr) else [a]) if b]),
         "np.nonzero": lambda a: where(a),
         "np.count_nonzero": lambda a, axis=None: (sum(1 for b in (_arrify(a).ravel() if isinstance(_arrify(a), NumArr) else [a]) if b) if axis is None else _raise_und("np.count_nonzero along an axis")),
@@ -709,7 +777,7 @@ def num_summaries():
         "np.concatenate": only1d(lambda seq, axis=0: NumArr([x for s in seq for x in (s if _is_seq(s) else [s])]) if axis in (0, None) else _raise_und("np.concatenate along axis %r" % (axis,)), "np.concatenate"),
         "np.append": lambda a, b, axis=None: NumArr((list(NumArr(a).ravel()) if _is_seq(a) else [a]) + (list(NumArr(b).ravel()) if _is_seq(b) else [b])),
         "np.insert": _insert,
-        "np.hstack": lambda seq: NumArr([x for s_ in seq for x in (s_ if _is_seq(s_) else [s_])]),
+        "np.hstack": _hstack,
         "np.union1d": lambda a, b: NumArr(sorted(set((list(NumArr(a).ravel()) if _is_seq(a) else [a]) + (list(NumArr(b).ravel()) if _is_seq(b) else [b])))),
         "np.atleast_1d": lambda a: a if isinstance(a, NumArr) else NumArr(list(a) if _is_seq(a) else [a]),
         "np.ones": lambda shape=None, dtype=None, *a, **k: _alloc(shape, 1 if _dtype_name(dtype) == "int" else True if _dtype_name(dtype) == "bool" else 1.0, "int" if _dtype_name(dtype) == "int" else None),
@@ -732,7 +800,7 @@ def num_summaries():
         "np.full_like": lambda a, v, dtype=None, shape=None, **k: _alloc_like(a, dtype, shape, v),
         "np.reshape": lambda a, shape, order="C": (a if isinstance(a, NumArr) else NumArr(a)).reshape(shape, order=order),
         "np.ravel": lambda a, *x, **k: (a if isinstance(a, NumArr) else NumArr(a if _is_seq(a) else [a])).flatten(),
-        "np.column_stack": lambda t: NumArr([list(c) for c in t]).T, "np.vstack": lambda t: NumArr([list(r) for r in t]),
+        "np.column_stack": lambda t: NumArr([list(c) for c in t]).T, "np.vstack": _vstack,
         "np.stack": lambda t, axis=0: (Stack3(list(t), axis) if (len(t) and isinstance(t[0], NumArr) and t[0].ndim == 2) else (NumArr([list(r) for r in t]) if axis == 0 else NumArr([list(c) for c in t]).T)),
         "np.transpose": lambda a: (a if isinstance(a, NumArr) else NumArr(a)).T,
         "np.swapaxes": lambda a, i, j: (a if isinstance(a, NumArr) else NumArr(a)).swapaxes(i, j),
